@@ -378,8 +378,16 @@ func c19Justify(op *c19Op, pre, post *govView, m *c19Model) (*c19Eff, *c19Fail) 
 	downBy := map[string][]string{}      // account|type -> proposals whose records back the release
 	if !op.Refused {
 		switch op.Kind {
-		case "propose", "vote":
+		case "propose", "vote", "stake":
 			allowedUp[op.From] = true
+		case "unstake":
+			for _, k := range sortedKeys(m.Rec) {
+				if strings.HasPrefix(k, "stake|"+op.From+"|") && m.Rec[k].Sign() > 0 {
+					lk := k[len("stake|"):]
+					allowedDown[lk] = new(big.Int).Add(zget(allowedDown, lk), m.Rec[k])
+					downBy[lk] = append(downBy[lk], "stake")
+				}
+			}
 		case "thaw":
 			for _, k := range sortedKeys(m.Rec) {
 				if strings.HasPrefix(k, op.Pid+"|"+op.From+"|") && m.Rec[k].Sign() > 0 {
